@@ -39,7 +39,7 @@ def parse_ace_extended(line: str) -> DStr:  # pylint: disable=too-many-locals
     re_action = f"{space}?(permit|deny)"
     re_proto = f"({space}{text})?"
     re_srcaddr = f"{space}({addr})"
-    re_srcport = "( .+)?"
+    re_srcport = "( .+?)??"  # lazy: the destination address is the first address after the source
     re_dstaddr = f"{space}({addr})"
     re_dstport = "( .+)?"
 
